@@ -4,11 +4,10 @@
    The state is a [st16] of bytes (primitive integers < 256) in the order of the input
    block, i.e. column-major: index r + 4c holds row r, column c.  The S-box is computed
    from its definition (multiplicative inverse in GF(2^8), then the affine map; section
-   5.1.1) once, into a primitive array ([PArray]) so that a look-up is one step. *)
+   5.1.1) once, into a binary tree, so that nothing but [Uint63] primitives is involved. *)
 From Kit Require Import Lib.Base.
 From Kit Require Import Crypto.Words.
 From Coq Require Import Uint63.
-From Coq Require PArray.
 
 Local Open Scope uint63_scope.
 
@@ -46,13 +45,39 @@ Definition sbox_value (a : int) : int := sbox_affine (gf_inv a).
 Fixpoint int_range (n : nat) (from : int) : list int :=
   match n with O => [] | S n' => from :: int_range n' (from + 1) end.
 
-Definition sbox_tab : PArray.array int :=
-  fold_left (fun t a => PArray.set t a (sbox_value a)) (int_range 256 0) (PArray.make 256 0).
-Definition inv_sbox_tab : PArray.array int :=
-  fold_left (fun t a => PArray.set t (sbox_value a) a) (int_range 256 0) (PArray.make 256 0).
+Definition sbox_list : list int := map sbox_value (int_range 256 0).
 
-Definition sbox (a : int) : int := PArray.get sbox_tab a.
-Definition inv_sbox (a : int) : int := PArray.get inv_sbox_tab a.
+(* position of [y] in [l] (the inverse S-box is the S-box read backwards) *)
+Fixpoint index_of (y : int) (l : list int) (i : int) : int :=
+  match l with
+  | [] => 0
+  | x :: l' => if x =? y then i else index_of y l' (i + 1)
+  end.
+Definition inv_sbox_list : list int := map (fun y => index_of y sbox_list 0) (int_range 256 0).
+
+(* A 256-entry table as a complete binary tree of depth 8, indexed by the bits of the byte
+   from the top one down: a look-up is 8 steps and needs only [Uint63] primitives. *)
+Inductive table := Leaf (v : int) | Node (zero one : table).
+
+Fixpoint table_build (depth : nat) (l : list int) : table :=
+  match depth with
+  | O => Leaf (hd 0 l)
+  | S d => let half := Nat.pow 2 d in
+           Node (table_build d (firstn half l)) (table_build d (skipn half l))
+  end.
+
+Fixpoint table_get (t : table) (x : int) : int :=
+  match t with
+  | Leaf v => v
+  | Node zero one =>
+      if (x land 0x80) =? 0 then table_get zero (x << 1) else table_get one (x << 1)
+  end.
+
+Definition sbox_tab : table := table_build 8 sbox_list.
+Definition inv_sbox_tab : table := table_build 8 inv_sbox_list.
+
+Definition sbox (a : int) : int := table_get sbox_tab a.
+Definition inv_sbox (a : int) : int := table_get inv_sbox_tab a.
 
 (* ------------------------------------------------------------------------------------- *)
 (** * Round transformations on the state *)
